@@ -171,7 +171,17 @@ void Network::start_write(int id, const std::vector<boost::asio::const_buffer>& 
                           Pending<void(error_code, std::size_t)>::handler_type h)
 {
     Conn* cp = conn(id);
-    auto op = Pending<void(error_code, std::size_t)>::make(std::move(h), ex);
+    // a pending write_some is cancellable through its slot, like a write on a full socket buffer
+    auto op = Pending<void(error_code, std::size_t)>::make(std::move(h), ex,
+        [this, id](asio::cancellation_type_t) {
+            Conn* c = conn(id);
+            if (!c || !c->write_op || !c->write_op->pending()) return;
+            if (c->write_event) { w.cancel_event(c->write_event); c->write_event = 0; }
+            w.tr("write_opcancel", id);
+            w.count("net.write_cancelled");
+            auto op = c->write_op; c->write_op = nullptr;
+            op->complete(asio::error::operation_aborted, 0);
+        });
     WriteRec rec;
     rec.id = writes.size() + 1; rec.conn = id; rec.seq_start = w.next_seq(); rec.t_start = w.now;
     size_t offered = 0;
@@ -248,9 +258,9 @@ void Network::start_write(int id, const std::vector<boost::asio::const_buffer>& 
     c.c2b_accepted += accepted;
     rec.accepted = accepted;
 
-    if (c.blackhole) {
+    if (c.blackhole || c.severed) {
         c.c2b_dropped += accepted;
-        w.count("net.bytes_blackholed", accepted);
+        w.count(c.severed ? "net.bytes_after_reset_dropped" : "net.bytes_blackholed", accepted);
     } else if (c.broker_closed) {
         // peer has closed: TCP accepts the bytes, they are lost, RST comes back
         c.c2b_dropped += accepted;
@@ -358,7 +368,7 @@ void Network::broker_send(Conn& c, const std::string& bytes) {
     if (c.broker_closed || bytes.empty()) return;
     c.b2c_emitted += bytes.size();
     bytes_b2c += bytes.size();
-    if (c.blackhole) return;
+    if (c.blackhole || c.severed) return;
     size_t pos = 0;
     int id = c.id;
     while (pos < bytes.size()) {
@@ -507,6 +517,7 @@ void Network::inject_rst(Conn& c, bool lose_inflight, const char* label) {
     if (!*c.close_cause) c.close_cause = "net_rst";
     w.count("fault.reset");
     if (lose_inflight) { ++c.epoch; w.count("fault.reset_lose_inflight"); }
+    c.severed = true;
     w.trs("inject_rst", label, c.id);
     int id = c.id;
     w.schedule_after(latency(c), "rst_broker_side", [this, id]() {
